@@ -168,8 +168,8 @@ InvSameRefEquivalence ==
   Generated /\ cs.kind = "pool" =>
      LET refs == den.refs
          D == 1..Len(refs)
-         info == [i \in D |-> RefInfo(refs[i])]
-         same == [i \in D |-> [j \in D |-> SameRefI(info[i], info[j])]]
+         info == InfoSeq(refs)
+         same == Tup([i \in D |-> Tup([j \in D |-> SameRefI(info[i], info[j])])])
      IN /\ \A i \in D : same[i][i]
         /\ \A i, j \in D : same[i][j] = same[j][i]
         /\ \A i, j, l \in D : same[i][j] /\ same[j][l] => same[i][l]
